@@ -33,6 +33,15 @@ pub fn truth_of(bytes: &[u8]) -> Truth {
     }
 }
 
+/// `Frame closing TDT [b0 .. b9]` of an empty-frame message
+fn closing_tdt_quote(text: &str) -> Option<[u8; 10]> {
+    static RE: OnceLock<Regex> = OnceLock::new();
+    let re = RE.get_or_init(|| Regex::new(r"Frame closing TDT \[((?:[0-9A-Fa-f]{2} ?){10})\]").unwrap());
+    let c = re.captures(text)?;
+    let v: Vec<u8> = c[1].split_whitespace().filter_map(|x| u8::from_str_radix(x, 16).ok()).collect();
+    v.try_into().ok()
+}
+
 fn ending_at(text: &str) -> Option<u64> {
     static RE: OnceLock<Regex> = OnceLock::new();
     let re = RE.get_or_init(|| Regex::new(r"ending at 0x([0-9A-F]+)").unwrap());
@@ -150,6 +159,15 @@ pub fn check_message(m: &ErrMsg, bytes: &[u8], tr: &Truth) -> Result<&'static st
             }
             if e < m.offset {
                 return Err((format!("C07:frame-end-before-start:E{first_code}"), format!("frame end {e:#X} lies before frame start {:#X}", m.offset)));
+            }
+            // the closing TDT quoted as context is the word stored at `ending at`
+            if let Some(q) = closing_tdt_quote(&m.text) {
+                if bytes[e as usize..e as usize + 10] != q {
+                    return Err((
+                        format!("C07:quoted-closing-tdt-differs:E{first_code}"),
+                        format!("message quotes the frame closing TDT as [{}] but the input holds [{}] at {e:#X}", word_hex(&q), word_hex(&bytes[e as usize..e as usize + 10])),
+                    ));
+                }
             }
         }
         return Ok("frame");
